@@ -109,7 +109,7 @@ SerAt(f, b, i) ==
   IF i = 0 \/ ~WellFormed(f) THEN 0
   ELSE IF f.t = "dbl" THEN
     IF i > Len(b) \/ b[i] # 44 THEN 0
-    ELSE LET js == {j \in (i + 1)..(Len(b) - 1) : b[j] = CR /\ b[j + 1] = LF}
+    ELSE LET js == {j \in (i + 1)..Min2(Len(b) - 1, i + 400) : b[j] = CR /\ b[j + 1] = LF}   \* text of a double: < 400 bytes
          IN IF js = {} THEN 0
             ELSE LET j == MinOf(js) IN IF DblTextOk(f.v, Sub(b, i + 1, j - 1)) THEN j + 2 ELSE 0
   ELSE IF f.t \in {"arr", "set3", "map"} THEN
